@@ -113,7 +113,20 @@ def op_c08_menu(job):
                     os.unlink(cf)
                 runs.append({"order": oname, "enum": enum, "result": r, "menu": reply["out"], "exc": reply["exc"],
                              "log": reply["log"][-2:]})
-            out[mode] = {"world": world, "runs": runs,
+            hist = None
+            if job.get("cache_history"):
+                # with the directory cache ON: a request that prepares the listing but never fetches it
+                # (HTTP HEAD, Gopher+ item information), then the menu, then the menu again (cache hit)
+                cfg2 = {k: dict(v) for k, v in cfg.items()}
+                cfg2.setdefault("handlers.dir.DirHandler", {})["cachetime"] = "180"
+                w.spec["config"] = cfg2
+                w.configure()
+                sel = dirsel.encode("utf-8", "surrogateescape")
+                hist = []
+                for data in (b"HEAD " + sel + b" HTTP/1.0\r\n\r\n", sel + b"\t!\r\n", sel + b"\r\n", sel + b"\r\n"):
+                    rr = c07.with_alarm(5, lambda: DRV.serve_once(w.config, data))
+                    hist.append({"request": DRV.b2s(data), "out": rr["out"], "exc": rr["exc"]})
+            out[mode] = {"world": world, "runs": runs, "cache_history": hist,
                          "groups": [{"result": x["result"], "perms": [[names.index(n) for n in x["enum"]]]} for x in runs],
                          "ignorepatt": w.config.get("handlers.dir.DirHandler", "ignorepatt"), "extstrip": mode}
         except c07.Timeout:
